@@ -245,6 +245,20 @@ def make_scripted_convergence(cfg, rng: random.Random, n_values=None):
     return cfg
 
 
+def gen_sched(rng: random.Random, rl: bool):
+    """Thread schedule of a calsim run: seeded random / PCT / canonical; line-level pre-emption inside
+    black_it/schedulers for a third of the RL scenarios."""
+    mode = rng.choice(["random", "random", "pct", "mainfirst", "othersfirst"])
+    sched = {"mode": mode, "seed": rng.randrange(2 ** 31), "p_line": 0.0}
+    trace = bool(rl and rng.random() < 0.33)
+    if trace:
+        sched["p_line"] = rng.choice([0.05, 0.2, 0.5])
+        if mode == "pct":
+            sched["pct_horizon"] = rng.choice([100, 400, 1500])
+            sched["pct_depth"] = rng.randint(1, 4)
+    return sched, trace
+
+
 BASE_ENV = {"n_jobs": 1, "verbose": False, "folder": False, "ctor_seed": 0, "ambient": 0, "clock_jumps": {},
             "sched": {"mode": "random", "seed": 0, "p_line": 0.0}, "trace_lines": False}
 
@@ -495,7 +509,10 @@ class CalSim:
         from black_it.schedulers.rl.agents.base import Agent
         sm = self.seams
         sim = self
-        sm.replace_global("parallel", joblib.Parallel, lambda n_jobs=None, *a, **kw: SimParallel(sim, n_jobs=n_jobs, **kw))
+        if not self.env.get("real_pool"):
+            sm.replace_global("parallel", joblib.Parallel, lambda n_jobs=None, *a, **kw: SimParallel(sim, n_jobs=n_jobs, **kw))
+        else:
+            self.stats["real-joblib-loky"] += 1
         sm.replace_global("clock", _time, SimClock({int(k): v for k, v in self.env["clock_jumps"].items()}))
         self.baton = Baton(self.env["sched"])
         sm.replace_global("threading", _th, ThreadingShim(self.baton))
@@ -524,9 +541,19 @@ class CalSim:
         try:
             if self.baton is not None:
                 self.leaked = self.baton.live_sim_threads()
+                if self.baton.switches:
+                    self.stats["preempt@thread"] += self.baton.switches
+                    self.stats["line_preemption_points"] += self.baton.line_points
+                    self.stats["scheduler_steps"] += self.baton.steps
                 self.baton.shutdown()
         finally:
             self.seams.undo()
+            if self.env.get("real_pool"):
+                try:
+                    from joblib.externals.loky import get_reusable_executor
+                    get_reusable_executor().shutdown(wait=True)
+                except Exception:  # noqa: BLE001
+                    pass
             if self.scratch is not None and not self.env.get("keep_scratch"):
                 shutil.rmtree(self.scratch, ignore_errors=True)
 
